@@ -1,3 +1,4 @@
+import WireP.Lemmas.NameableProofs
 import WireP.Props.Pipeline
 import WireP.Props.C14
 import WireP.Props.C09
@@ -384,5 +385,17 @@ theorem importable_synthetic (path : String) : importableFromTool path synthetic
 theorem importable_real (path frm : String) (h : frm ≠ syntheticPath) :
     importableFromTool path frm = importableFromC path.toList frm.toList := by
   simp [importableFromTool, importableFrom, h]
+
+/-! ## the types an injector's signature spells (`unnameableType`, `WireV.Nameable`; D41) -/
+
+/-- **Accepted iff every defined type mentioned can be named from the injector's package**: none is an unexported type of another
+    package — at any depth: behind pointers, in slices, arrays, channels, maps, signatures, struct literals, or as a type argument. -/
+theorem signature_nameable_iff (want : Nat) (t : UTy) : unnameable want t = none ↔ NameableOk want t :=
+  WireP.Nameable.unnameable_none_iff want t
+
+example : unnameable 0 (.comp [.named 1 0 false [], .named 2 1 true [.comp [.named 3 0 false []]], .leaf]) = none := by decide
+/-- `[]other.Box[other.t]`: the unexported type argument is found -/
+example : unnameable 0 (.comp [.named 5 1 true [.named 4 1 false []]]) = some 4 := by decide
+example : unnameable 1 (.comp [.named 5 1 true [.named 4 1 false []]]) = none := by decide
 
 end WireP.C01
